@@ -57,13 +57,31 @@ pub struct Case {
 
 impl Case {
     fn runs_tok(&self) -> String {
-        list(&self.runs.iter().map(|(d, ok)| format!("{d}{}", if *ok { 't' } else { 'f' })).collect::<Vec<_>>())
+        list(
+            &self
+                .runs
+                .iter()
+                .map(|(d, ok)| format!("{d}{}", if *ok { 't' } else { 'f' }))
+                .collect::<Vec<_>>(),
+        )
     }
     fn sigs_tok(&self) -> String {
-        list(&self.sigs.iter().map(|(t, k)| format!("{k}{t}")).collect::<Vec<_>>())
+        list(
+            &self
+                .sigs
+                .iter()
+                .map(|(t, k)| format!("{k}{t}"))
+                .collect::<Vec<_>>(),
+        )
     }
     pub fn descr(&self) -> String {
-        format!("p={};h={};r={};s={}", self.period_s, self.horizon, self.runs_tok(), self.sigs_tok())
+        format!(
+            "p={};h={};r={};s={}",
+            self.period_s,
+            self.horizon,
+            self.runs_tok(),
+            self.sigs_tok()
+        )
     }
     pub fn parse(s: &str) -> Option<Case> {
         let mut period_s = None;
@@ -105,14 +123,25 @@ impl Case {
                 _ => return None,
             }
         }
-        let c = Case { period_s: period_s?, runs: runs?, sigs: sigs?, horizon: horizon? };
+        let c = Case {
+            period_s: period_s?,
+            runs: runs?,
+            sigs: sigs?,
+            horizon: horizon?,
+        };
         if c.period_s == 0 || c.sigs.windows(2).any(|w| w[0].0 > w[1].0) {
             return None;
         }
         Some(c)
     }
     fn model_args(&self) -> String {
-        format!("{} {} {} {}", self.period_s * 1000, self.horizon, self.runs_tok(), self.sigs_tok())
+        format!(
+            "{} {} {} {}",
+            self.period_s * 1000,
+            self.horizon,
+            self.runs_tok(),
+            self.sigs_tok()
+        )
     }
 }
 
@@ -130,7 +159,13 @@ impl Obs {
     fn line(&self) -> String {
         format!(
             "starts={} exit={}",
-            list(&self.starts.iter().map(|t| t.to_string()).collect::<Vec<_>>()),
+            list(
+                &self
+                    .starts
+                    .iter()
+                    .map(|t| t.to_string())
+                    .collect::<Vec<_>>()
+            ),
             self.exit.map_or("-".to_string(), |t| t.to_string())
         )
     }
@@ -147,7 +182,10 @@ fn signo(k: char) -> i32 {
 /// Make tokio install its process-wide handlers for the three signals (they stay installed).
 fn warm_up() {
     use tokio::signal::unix::{signal, SignalKind};
-    let rt = tokio::runtime::Builder::new_current_thread().enable_all().build().unwrap();
+    let rt = tokio::runtime::Builder::new_current_thread()
+        .enable_all()
+        .build()
+        .unwrap();
     rt.block_on(async {
         let mut hup = signal(SignalKind::hangup()).unwrap();
         let _int = signal(SignalKind::interrupt()).unwrap();
@@ -155,14 +193,23 @@ fn warm_up() {
         // prove that a raised signal is caught, with the least dangerous of the three… which is
         // still fatal by default, hence after registration only
         unsafe { libc::raise(libc::SIGHUP) };
-        tokio::time::timeout(Duration::from_secs(5), hup.recv()).await.expect("SIGHUP not delivered to tokio listener");
+        tokio::time::timeout(Duration::from_secs(5), hup.recv())
+            .await
+            .expect("SIGHUP not delivered to tokio listener");
     });
 }
 
 /// Virtual-time run of one script against the real `Loop::start`. All outcomes must be failures.
 pub fn run_case(c: &Case) -> Obs {
-    assert!(c.runs.iter().all(|r| !r.1), "successful runs need run_case_realtime (TODO(C19-success))");
-    let rt = tokio::runtime::Builder::new_current_thread().enable_all().start_paused(true).build().unwrap();
+    assert!(
+        c.runs.iter().all(|r| !r.1),
+        "successful runs need run_case_realtime (TODO(C19-success))"
+    );
+    let rt = tokio::runtime::Builder::new_current_thread()
+        .enable_all()
+        .start_paused(true)
+        .build()
+        .unwrap();
     let c = c.clone();
     let r = std::panic::catch_unwind(std::panic::AssertUnwindSafe(|| {
         rt.block_on(async move {
@@ -173,10 +220,14 @@ pub fn run_case(c: &Case) -> Obs {
             let durs: Arc<Vec<u64>> = Arc::new(c.runs.iter().map(|r| r.0).collect());
             let (log2, n2, runaway2) = (log.clone(), n.clone(), runaway.clone());
             let conn = agent::verif::connector::<MemTransport, _>(move || {
-                let (log, n, runaway, durs) = (log2.clone(), n2.clone(), runaway2.clone(), durs.clone());
+                let (log, n, runaway, durs) =
+                    (log2.clone(), n2.clone(), runaway2.clone(), durs.clone());
                 Box::pin(async move {
                     let i = n.fetch_add(1, Ordering::SeqCst);
-                    log.lock().unwrap().0.push((Instant::now() - t0).as_millis() as u64);
+                    log.lock()
+                        .unwrap()
+                        .0
+                        .push((Instant::now() - t0).as_millis() as u64);
                     if i >= MAX_ATTEMPTS {
                         // back-to-back runs would never let virtual time advance: park this run
                         runaway.store(true, Ordering::SeqCst);
@@ -186,7 +237,10 @@ pub fn run_case(c: &Case) -> Obs {
                     if d > 0 {
                         tokio::time::sleep(Duration::from_millis(d)).await;
                     }
-                    log.lock().unwrap().1.push((Instant::now() - t0).as_millis() as u64);
+                    log.lock()
+                        .unwrap()
+                        .1
+                        .push((Instant::now() - t0).as_millis() as u64);
                     Err(anyhow::anyhow!("scripted connect failure #{i}"))
                 })
             });
@@ -203,7 +257,10 @@ pub fn run_case(c: &Case) -> Obs {
                 }
                 tokio::task::yield_now().await;
             }
-            assert!(n.load(Ordering::SeqCst) > 0 || h.is_finished(), "loop made no first attempt");
+            assert!(
+                n.load(Ordering::SeqCst) > 0 || h.is_finished(),
+                "loop made no first attempt"
+            );
             for (t, k) in &c.sigs {
                 if *t > c.horizon {
                     break;
@@ -238,7 +295,10 @@ pub fn run_case(c: &Case) -> Obs {
             o
         })
     }));
-    r.unwrap_or_else(|_| Obs { panicked: true, ..Default::default() })
+    r.unwrap_or_else(|_| Obs {
+        panicked: true,
+        ..Default::default()
+    })
 }
 
 /// Real-time run of a script that contains SUCCESSFUL runs: `Updater::run` needs the multi-thread
@@ -250,7 +310,11 @@ pub const RT_GRID: u64 = 250;
 
 pub fn run_case_realtime(c: &Case) -> Option<Obs> {
     use crate::{fakeirrd::FakeIrrd, fakejunos, memtransport as mt};
-    let rt = tokio::runtime::Builder::new_multi_thread().worker_threads(4).enable_all().build().unwrap();
+    let rt = tokio::runtime::Builder::new_multi_thread()
+        .worker_threads(4)
+        .enable_all()
+        .build()
+        .unwrap();
     let irrd = FakeIrrd::start(std::collections::HashMap::new());
     let irrd_port = irrd.port;
     let c = c.clone();
@@ -263,7 +327,8 @@ pub fn run_case_realtime(c: &Case) -> Option<Obs> {
         let durs: Arc<Vec<u64>> = Arc::new(c.runs.iter().map(|r| r.0).collect());
         let (log2, n2) = (log.clone(), n.clone());
         let conn = agent::verif::connector::<MemTransport, _>(move || {
-            let (log, n, outcomes, durs) = (log2.clone(), n2.clone(), outcomes.clone(), durs.clone());
+            let (log, n, outcomes, durs) =
+                (log2.clone(), n2.clone(), outcomes.clone(), durs.clone());
             Box::pin(async move {
                 let i = n.fetch_add(1, Ordering::SeqCst);
                 log.lock().unwrap().0.push(t0.elapsed().as_millis() as u64);
@@ -274,7 +339,11 @@ pub fn run_case_realtime(c: &Case) -> Option<Obs> {
                 }
                 if outcomes.get(i).copied().unwrap_or(false) {
                     let (t, peer) = mt::new();
-                    let script = fakejunos::Script { running: fakejunos::running_with(1), ephemeral: fakejunos::empty_config(), fault: None };
+                    let script = fakejunos::Script {
+                        running: fakejunos::running_with(1),
+                        ephemeral: fakejunos::empty_config(),
+                        fault: None,
+                    };
                     tokio::spawn(fakejunos::serve(peer, script, Default::default()));
                     Ok(t)
                 } else {
@@ -345,7 +414,12 @@ fn realtime_cases(thorough: bool) -> Vec<Case> {
         sigs: sigs.to_vec(),
         horizon: h,
     };
-    let slow = |p: u64, runs: &[(u64, bool)], h: u64| Case { period_s: p, runs: runs.to_vec(), sigs: vec![], horizon: h };
+    let slow = |p: u64, runs: &[(u64, bool)], h: u64| Case {
+        period_s: p,
+        runs: runs.to_vec(),
+        sigs: vec![],
+        horizon: h,
+    };
     let mut v = vec![
         // success restores the normal period: runs at 0, p, 2p, …
         mk(1, &[true, true, true, true], &[], 3500),
@@ -373,7 +447,12 @@ fn racy(c: &Case, o: &Obs) -> bool {
         if o.starts.contains(t) && !c.sigs.iter().any(|(u, k)| u == t && *k == 'H') {
             return true;
         }
-        if o.starts.iter().zip(o.ends.iter()).any(|(s, e)| s < t && e == t) || *t == c.horizon {
+        if o.starts
+            .iter()
+            .zip(o.ends.iter())
+            .any(|(s, e)| s < t && e == t)
+            || *t == c.horizon
+        {
             return true;
         }
     }
@@ -384,7 +463,12 @@ fn racy(c: &Case, o: &Obs) -> bool {
     // two different kinds latched during the same run (window [start, end])
     for (i, s) in o.starts.iter().enumerate() {
         let e = o.ends.get(i).copied().unwrap_or(u64::MAX);
-        let mut kinds: Vec<char> = c.sigs.iter().filter(|(t, _)| s < t && *t <= e).map(|x| x.1).collect();
+        let mut kinds: Vec<char> = c
+            .sigs
+            .iter()
+            .filter(|(t, _)| s < t && *t <= e)
+            .map(|x| x.1)
+            .collect();
         kinds.dedup();
         kinds.sort();
         kinds.dedup();
@@ -404,16 +488,35 @@ fn horizon_for(period_s: u64, k: u64) -> u64 {
     k * period_s.max(60) * 1000 + 500
 }
 
-const PERIODS: &[u64] = &[1, 2, 10, 30, 59, 60, 61, 90, 119, 120, 121, 300, 3600, 86400];
+const PERIODS: &[u64] = &[
+    1, 2, 10, 30, 59, 60, 61, 90, 119, 120, 121, 300, 3600, 86400,
+];
 
 fn dur_patterns(rng: &mut Rng, thorough: bool) -> Vec<Vec<(u64, bool)>> {
     let mut v: Vec<Vec<(u64, bool)>> = vec![
-        vec![],                                                   // every run fails at once
-        (0..12).map(|_| (1000, false)).collect(),                 // 1 s each
-        vec![(5000, false), (0, false), (70000, false), (1000, false), (0, false), (130000, false), (2000, false)],
+        vec![],                                   // every run fails at once
+        (0..12).map(|_| (1000, false)).collect(), // 1 s each
+        vec![
+            (5000, false),
+            (0, false),
+            (70000, false),
+            (1000, false),
+            (0, false),
+            (130000, false),
+            (2000, false),
+        ],
     ];
     for _ in 0..if thorough { 6 } else { 1 } {
-        v.push((0..10).map(|_| (*rng.pick(&[0u64, 0, 1000, 3000, 30000, 61000, 200000]), false)).collect());
+        v.push(
+            (0..10)
+                .map(|_| {
+                    (
+                        *rng.pick(&[0u64, 0, 1000, 3000, 30000, 61000, 200000]),
+                        false,
+                    )
+                })
+                .collect(),
+        );
     }
     v
 }
@@ -424,20 +527,40 @@ fn gen_cases(opts: &Opts, rng: &mut Rng, sink: &mut Sink) -> Vec<Case> {
     let pats = dur_patterns(rng, thorough);
     for &p in PERIODS {
         // the shortest history that shows three consecutive retries
-        cases.push(Case { period_s: p, runs: vec![], sigs: vec![], horizon: (60 + 2 * p.max(60).min(240)) * 1000 + 500 });
+        cases.push(Case {
+            period_s: p,
+            runs: vec![],
+            sigs: vec![],
+            horizon: (60 + 2 * p.max(60).min(240)) * 1000 + 500,
+        });
         if p < 60 {
-            cases.push(Case { period_s: p, runs: vec![], sigs: vec![], horizon: (60 + 2 * p) * 1000 + 500 });
+            cases.push(Case {
+                period_s: p,
+                runs: vec![],
+                sigs: vec![],
+                horizon: (60 + 2 * p) * 1000 + 500,
+            });
         }
         for (pi, runs) in pats.iter().enumerate() {
             // (a) failures only, three horizons
             let ks: &[u64] = if pi == 0 { &[1, 3, 9] } else { &[6] };
             for &k in ks {
-                cases.push(Case { period_s: p, runs: runs.clone(), sigs: vec![], horizon: horizon_for(p, k) });
+                cases.push(Case {
+                    period_s: p,
+                    runs: runs.clone(),
+                    sigs: vec![],
+                    horizon: horizon_for(p, k),
+                });
             }
             // (b) one signal placed relative to the timeline the implementation itself produces
             //     without signals: 1 ms after a run ended, 1 ms before the next one would start,
             //     in the middle of the wait, in the middle of the run
-            let base = Case { period_s: p, runs: runs.clone(), sigs: vec![], horizon: horizon_for(p, 6) };
+            let base = Case {
+                period_s: p,
+                runs: runs.clone(),
+                sigs: vec![],
+                horizon: horizon_for(p, 6),
+            };
             let o = run_case(&base);
             sink.count("probe_runs");
             let nwaits = o.starts.len().saturating_sub(1);
@@ -457,14 +580,24 @@ fn gen_cases(opts: &Opts, rng: &mut Rng, sink: &mut Sink) -> Vec<Case> {
                         continue;
                     }
                     for k in ['H', 'I', 'T'] {
-                        cases.push(Case { period_s: p, runs: runs.clone(), sigs: vec![(t, k)], horizon: base.horizon });
+                        cases.push(Case {
+                            period_s: p,
+                            runs: runs.clone(),
+                            sigs: vec![(t, k)],
+                            horizon: base.horizon,
+                        });
                     }
                     // a SIGHUP there, and an exit signal later / a second SIGHUP
                     if pi != 1 || thorough {
                         let t2 = t + 1000 * (1 + rng.below(200) as u64) + 1 + rng.below(498) as u64;
                         if residue_ok(t2, &[(t, 'H')]) && t2 < base.horizon {
                             let k2 = *rng.pick(&['H', 'I', 'T']);
-                            cases.push(Case { period_s: p, runs: runs.clone(), sigs: vec![(t, 'H'), (t2, k2)], horizon: base.horizon });
+                            cases.push(Case {
+                                period_s: p,
+                                runs: runs.clone(),
+                                sigs: vec![(t, 'H'), (t2, k2)],
+                                horizon: base.horizon,
+                            });
                         }
                     }
                 }
@@ -474,25 +607,51 @@ fn gen_cases(opts: &Opts, rng: &mut Rng, sink: &mut Sink) -> Vec<Case> {
     // (c) random scripts: several signals anywhere up to the horizon
     let nrand = if thorough { 4000 } else { 600 };
     for _ in 0..nrand {
-        let p = if rng.chance(1, 4) { 1 + rng.below(400) as u64 } else { *rng.pick(PERIODS) };
+        let p = if rng.chance(1, 4) {
+            1 + rng.below(400) as u64
+        } else {
+            *rng.pick(PERIODS)
+        };
         let runs = if rng.chance(1, 3) {
             vec![]
         } else {
-            (0..rng.below(12)).map(|_| (*rng.pick(&[0u64, 0, 1000, 2000, 10000, 59000, 60000, 61000, 150000]), false)).collect()
+            (0..rng.below(12))
+                .map(|_| {
+                    (
+                        *rng.pick(&[0u64, 0, 1000, 2000, 10000, 59000, 60000, 61000, 150000]),
+                        false,
+                    )
+                })
+                .collect()
         };
         let horizon = horizon_for(p, 1 + rng.below(8) as u64);
         let mut sigs: Vec<(u64, char)> = vec![];
         let nsig = rng.below(5);
-        let span = if rng.chance(1, 2) { horizon } else { horizon.min(400_000) };
+        let span = if rng.chance(1, 2) {
+            horizon
+        } else {
+            horizon.min(400_000)
+        };
         for _ in 0..nsig {
             let t = 1 + rng.next() % span;
             if residue_ok(t, &sigs) {
-                let k = if rng.chance(3, 4) { 'H' } else if rng.chance(1, 2) { 'I' } else { 'T' };
+                let k = if rng.chance(3, 4) {
+                    'H'
+                } else if rng.chance(1, 2) {
+                    'I'
+                } else {
+                    'T'
+                };
                 sigs.push((t, k));
             }
         }
         sigs.sort();
-        cases.push(Case { period_s: p, runs, sigs, horizon });
+        cases.push(Case {
+            period_s: p,
+            runs,
+            sigs,
+            horizon,
+        });
     }
     cases
 }
@@ -509,7 +668,11 @@ fn read_min_backoff_ms() -> Option<u64> {
     } else {
         return None;
     };
-    let num: String = rest[unit..].chars().take_while(|c| c.is_ascii_digit() || *c == '_').filter(|c| *c != '_').collect();
+    let num: String = rest[unit..]
+        .chars()
+        .take_while(|c| c.is_ascii_digit() || *c == '_')
+        .filter(|c| *c != '_')
+        .collect();
     num.parse::<u64>().ok().map(|n| n * mul)
 }
 
@@ -531,7 +694,10 @@ pub fn main(opts: &Opts) {
         .find_map(|e| e.strip_prefix("cfg="))
         .unwrap_or("pinned")
         .to_string();
-    assert!(cfg == "pinned" || cfg == "fixed", "cfg= must be pinned or fixed");
+    assert!(
+        cfg == "pinned" || cfg == "fixed",
+        "cfg= must be pinned or fixed"
+    );
     let mut rng = Rng::new(opts.seed);
     let mut sink = Sink::new();
     let t0 = std::time::Instant::now();
@@ -556,12 +722,33 @@ pub fn main(opts: &Opts) {
     // constants read from the source
     match read_min_backoff_ms() {
         Some(ms) => {
-            sink.corr("const:MIN_BACKOFF", "daemon const".into(), format!("minBackoff={ms}"));
-            sink.direct("const:MIN_BACKOFF", if ms == MODEL_MIN_BACKOFF_MS { "ok".into() } else { "violation min-backoff-changed".into() });
+            sink.corr(
+                "const:MIN_BACKOFF",
+                "daemon const".into(),
+                format!("minBackoff={ms}"),
+            );
+            sink.direct(
+                "const:MIN_BACKOFF",
+                if ms == MODEL_MIN_BACKOFF_MS {
+                    "ok".into()
+                } else {
+                    "violation min-backoff-changed".into()
+                },
+            );
         }
-        None => sink.direct("const:MIN_BACKOFF", "violation min-backoff-unreadable".into()),
+        None => sink.direct(
+            "const:MIN_BACKOFF",
+            "violation min-backoff-unreadable".into(),
+        ),
     }
-    sink.direct("const:one-shot", if one_shot_guard() { "ok".into() } else { "violation zero-period-reachable".into() });
+    sink.direct(
+        "const:one-shot",
+        if one_shot_guard() {
+            "ok".into()
+        } else {
+            "violation zero-period-reachable".into()
+        },
+    );
 
     for c in &cases {
         let d = c.descr();
@@ -605,7 +792,13 @@ pub fn main(opts: &Opts) {
         );
         sink.count(&format!(
             "period.{}",
-            if c.period_s < 60 { "lt60" } else if c.period_s == 60 { "eq60" } else { "gt60" }
+            if c.period_s < 60 {
+                "lt60"
+            } else if c.period_s == 60 {
+                "eq60"
+            } else {
+                "gt60"
+            }
         ));
         sink.count(&format!("signals.{}", c.sigs.len().min(4)));
         for k in ['H', 'I', 'T'] {
@@ -613,10 +806,19 @@ pub fn main(opts: &Opts) {
                 sink.count(&format!("with.{k}"));
             }
         }
-        if c.sigs.iter().any(|(t, _)| o.starts.iter().zip(o.ends.iter()).any(|(s, e)| s < t && t <= e)) {
+        if c.sigs.iter().any(|(t, _)| {
+            o.starts
+                .iter()
+                .zip(o.ends.iter())
+                .any(|(s, e)| s < t && t <= e)
+        }) {
             sink.count("signal_during_run");
         }
-        sink.count(if o.exit.is_some() { "observed.exit" } else { "observed.running" });
+        sink.count(if o.exit.is_some() {
+            "observed.exit"
+        } else {
+            "observed.running"
+        });
         sink.add("attempts", o.starts.len() as u64);
         if c.sigs.len() >= 1 && (3..=9).contains(&o.starts.len()) && c.period_s != 1 {
             sink.sample(format!("{d} -> {}", o.line()));
